@@ -29,7 +29,7 @@ ASSUMPTIONS = [
     "tasks / timers created by the harness (user-call runners, the scenario driver) are excluded by identity; every other live task or pending TimerHandle belongs to the client",
 ]
 PROBES = ["c15.during_connect_latency", "c15.during_backoff", "c15.mid_handshake", "c15.message_pending", "c15.at_heartbeat", "c15.after_fault",
-          "c15.reinit", "c15.reinit_changed_installation", "c15.socket_class", "c15.shutdown_twice", "c15.quick_reinit_with_pending", "c15.heartbeat_after_reinit", "c15.during_slow_reset", "c15.after_reconnection_dead_on_arrival", "c15.during_stalled_handshake", "c15.during_blocked_write", "c15.heartbeat_during_slow_close"]
+          "c15.reinit", "c15.reinit_changed_installation", "c15.socket_class", "c15.shutdown_twice", "c15.quick_reinit_with_pending", "c15.heartbeat_after_reinit", "c15.during_slow_reset", "c15.periodic_job_due_with_full_buffer", "c15.after_reconnection_dead_on_arrival", "c15.during_stalled_handshake", "c15.during_blocked_write", "c15.heartbeat_during_slow_close"]
 
 
 def budget(tier: str) -> int:
@@ -160,6 +160,17 @@ def generate(rng, index: int, tier: str) -> dict:
                 tl.append({"at": t_s - gap, "op": "user.api", "target": ["at"], "call": "check_for_updates", "args": {}})
         else:
             tl.append({"at": t_s - gap, "op": "net." + kind})
+    if where == "pending" and gen == 4 and not sock and rng.random() < 0.35:
+        # the link has been down for a while, the user has filled the buffer of pending messages (ten commands), and one of the
+        # client's own periodic jobs (the AT4 group poll, 300 s after the handshake) falls due just before shutdown()
+        where = "pending_full"
+        info["where"] = "pending"
+        info["poll_with_full_buffer"] = True
+        t_s = 300.0 + rng.choice([2.0, 5.0, 20.0])
+        tl.append({"at": 280.0 - G.EPS, "op": "net.fates", "fates": [{"kind": "refuse", "latency": 0.0}] * 40})
+        tl.append({"at": 280.0, "op": "net.rst"})
+        for i in range(rng.choice([10, 10, 11])):
+            tl.append({"at": 290.0 + i * G.TICK, "op": "user.api", "target": ["at"], "call": "check_for_updates", "args": {}})
     if where == "pending":
         # messages wait in the queue: the link goes down and stays down
         tl.append({"at": t_s - 1.0, "op": "net.fates", "fates": [{"kind": "refuse", "latency": 0.0}] * 2 + [{"kind": "accept", "latency": 0.0}]})
@@ -302,6 +313,8 @@ def execute(sc: dict) -> dict:
         probes["c15.during_stalled_handshake"] = 1
     if info.get("dead_on_arrival"):
         probes["c15.after_reconnection_dead_on_arrival"] = 1
+    if info.get("poll_with_full_buffer"):
+        probes["c15.periodic_job_due_with_full_buffer"] = 1
     if info.get("heartbeat_during_slow_close"):
         probes["c15.heartbeat_during_slow_close"] = 1
     if info.get("twice"):
